@@ -63,8 +63,18 @@ def genericStep (_ : Unit) (ws : List String) : Unit × String :=
     | "batchiter" :: b :: ks => (match b.toNat?, parseInts ks with
       | some b, some xs => "lists " ++ showLists (batcherIter xs b)
       | _, _ => "bad-op")
+    | "batchiter2" :: b :: ks =>
+      -- `batchiter2 b x1 x2 … | y1 y2 …`: a tuple of two iterables of possibly different length
+      (match b.toNat?, parseInts (ks.takeWhile (· ≠ "|")), parseInts ((ks.dropWhile (· ≠ "|")).drop 1) with
+      | some b, some xs, some ys =>
+        "lists2 " ++ ";".intercalate ((batcherIterPair xs ys b).map
+          (fun p => ",".intercalate (p.1.map toString) ++ "/" ++ ",".intercalate (p.2.map toString)))
+      | _, _, _ => "bad-op")
     | "combos" :: ws => (match parseNats ws with
       | some sc => "ret " ++ showCombos (sortedCombinations sc)
+      | none => "bad-op")
+    | "combosE" :: ws => (match parseNats ws with
+      | some es => "ret " ++ showCombos (sortedCombinationsE es)
       | none => "bad-op")
     | "mincomb" :: a :: b :: ws => (match a.toInt?, b.toInt?, parseNats ws with
       | some a, some b, some sc => "ret " ++ showCombos (minCombinations sc a b)
